@@ -1218,11 +1218,11 @@ Qed.
 (* the code as it is: the first wake-up is consumed (flag cleared), so the second send
    writes the eventfd again and the loop leaves epoll_pwait once more *)
 Lemma null_callback_handle_wakes_loop :
-  exists s, run nc_init (nc_sched1 ++ [1; 1; 1; 1; 1; 1; 0; 0; 0; 0; 0]%nat) = Some s /\
+  exists s, run nc_init (nc_sched1 ++ [1; 1; 1; 1; 1; 1; 0; 0; 0; 0]%nat) = Some s /\
             quiescent s = true /\ pending (hs s 0%nat) = false /\ cb_count (hs s 0%nat) = 0 /\
             seen (hs s 0%nat) = 2 /\ published (hs s 0%nat) = 2.
 Proof.
-  destruct (ex_of_check (run nc_init (nc_sched1 ++ [1; 1; 1; 1; 1; 1; 0; 0; 0; 0; 0]%nat))
+  destruct (ex_of_check (run nc_init (nc_sched1 ++ [1; 1; 1; 1; 1; 1; 0; 0; 0; 0]%nat))
     (fun s => quiescent s && negb (pending (hs s 0%nat)) && (cb_count (hs s 0%nat) =? 0) &&
               (seen (hs s 0%nat) =? 2) && (published (hs s 0%nat) =? 2)))
     as (s & Hr & Hc); [vm_compute; reflexivity|].
